@@ -1,3 +1,4 @@
+import Noodles.Props.C05Reenc
 import Noodles.Bam.Record
 import Noodles.Bam.RecordSpec
 import Noodles.Bam.RecordProof
